@@ -188,9 +188,9 @@ static void vo_continues_at(JanetSignal sig, int off) {
 }
 /* every stack cell other than `except` keeps its value (slots and everything above them) */
 static void vo_others_kept(uint32_t except) {
-    uint32_t k = nd_u32();
-    __CPROVER_assume(k < VO_NDATA && k != except);
-    __CPROVER_assert(same(vo_mem.slots[k], vo_old[k]), "vm.op: every other slot keeps its value");
+    /* constant indices only: a symbolic index would turn the stack into an SMT array and defeat the solver's simplifier */
+    for (uint32_t k = 0; k < VO_NDATA; k++)
+        if (k != except) __CPROVER_assert(same(vo_mem.slots[k], vo_old[k]), "vm.op: every other slot keeps its value");
 }
 
 /* every aliasing pattern of three operand registers (destination, operand 1, operand 2) */
@@ -561,4 +561,314 @@ static void vo_cmp3(uint32_t a, uint32_t b, uint32_t c) {
     REACH("vm.op cmp");
 }
 void h_vo_cmp3(void) { VO_PATTERNS3(vo_cmp3); }
+#endif
+
+/* =====================================================================================================
+ * Group 4: data access.  Each instruction is exactly one call of the C API function that defines the core function
+ * of the same name (get, in, put, length, next), with the operands in the documented order.
+ * ===================================================================================================== */
+#if defined(VO_IN) || defined(VO_GET) || defined(VO_NEXT) || defined(VO_PUT) || defined(VO_GETINDEX) || defined(VO_PUTINDEX) || defined(VO_LENGTH)
+static void vo_acc_common(int which) {
+    __CPROVER_assert(g_acc_calls == 1 && g_acc_which == which, "vm.op: exactly one call, of the data-access function the instruction is named after");
+    __CPROVER_assert(g_binop_calls == 0 && g_mcall_calls == 0 && g_unary_calls == 0 && g_cmp_calls == 0 && g_eq_calls == 0, "vm.op: nothing else is called");
+    __CPROVER_assert(g_callee_committed, "vm.op: the frame is committed before the data-access function (which may raise)");
+}
+#endif
+#if defined(VO_IN) || defined(VO_GET) || defined(VO_NEXT)
+#if defined(VO_IN)
+#define VO_AOP JOP_IN
+#define VO_AWHICH ACC_IN
+#elif defined(VO_GET)
+#define VO_AOP JOP_GET
+#define VO_AWHICH ACC_GET
+#else
+#define VO_AOP JOP_NEXT
+#define VO_AWHICH ACC_NEXT
+#endif
+static void vo_get_like(uint32_t a, uint32_t b, uint32_t c) {
+    vo_setup(VO_W(VO_AOP, a, b, c), a, b, c);
+    JanetSignal sig = vo_run();
+    vo_continues_at(sig, 1);
+    vo_acc_common(VO_AWHICH);
+    __CPROVER_assert(same(g_acc_ds, vo_old[b]) && same(g_acc_key, vo_old[c]), "vm.op: the function receives (data structure, key) = (first operand, second operand), unchanged");
+    __CPROVER_assert(same(vo_mem.slots[a], g_res), "vm.op: the value the function returns arrives unchanged in the destination slot");
+    vo_others_kept(a);
+    REACH("vm.op get-like");
+}
+void h_vo_get_like(void) { VO_PATTERNS3(vo_get_like); }
+#endif
+#ifdef VO_PUT
+static void vo_put(uint32_t a, uint32_t b, uint32_t c) {
+    vo_setup(VO_W(JOP_PUT, a, b, c), a, b, c);
+    JanetSignal sig = vo_run();
+    vo_continues_at(sig, 1);
+    vo_acc_common(ACC_PUT);
+    __CPROVER_assert(same(g_acc_ds, vo_old[a]) && same(g_acc_key, vo_old[b]) && same(g_acc_val, vo_old[c]), "vm.op: put receives (data structure, key, value) = (A, B, C), unchanged");
+    __CPROVER_assert(g_acc_fiber_flags & JANET_FIBER_RESUME_NO_USEVAL, "vm.op: put has no destination: while it runs the fiber is marked so that a resumption value is not stored into a slot");
+    vo_others_kept(VO_NDATA);
+    REACH("vm.op put");
+}
+void h_vo_put(void) { VO_PATTERNS3(vo_put); }
+#endif
+#if defined(VO_GETINDEX) || defined(VO_PUTINDEX)
+static void vo_index(uint32_t a, uint32_t b, uint32_t c) {
+#ifdef VO_GETINDEX
+    vo_setup(VO_W(JOP_GET_INDEX, a, b, c), a, b, c);
+#else
+    vo_setup(VO_W(JOP_PUT_INDEX, a, b, c), a, b, c);
+#endif
+    JanetSignal sig = vo_run();
+    vo_continues_at(sig, 1);
+#ifdef VO_GETINDEX
+    vo_acc_common(ACC_GETINDEX);
+    __CPROVER_assert(same(g_acc_ds, vo_old[b]) && g_acc_index == (int32_t) c, "vm.op: getindex receives (data structure, index) = (operand, the unsigned byte immediate)");
+    __CPROVER_assert(same(vo_mem.slots[a], g_res), "vm.op: the value the function returns arrives unchanged in the destination slot");
+    vo_others_kept(a);
+#else
+    vo_acc_common(ACC_PUTINDEX);
+    __CPROVER_assert(same(g_acc_ds, vo_old[a]) && g_acc_index == (int32_t) c && same(g_acc_val, vo_old[b]), "vm.op: putindex receives (data structure, index, value) = (A, the unsigned byte immediate, B)");
+    __CPROVER_assert(g_acc_fiber_flags & JANET_FIBER_RESUME_NO_USEVAL, "vm.op: put has no destination: while it runs the fiber is marked so that a resumption value is not stored into a slot");
+    vo_others_kept(VO_NDATA);
+#endif
+    REACH("vm.op index access");
+}
+void h_vo_index(void) { int k = nd_int();
+    if (k == 0) vo_index(0, 1, 0); else if (k == 1) vo_index(1, 1, 1); else if (k == 2) vo_index(0, 1, 2); else if (k == 3) vo_index(3, 0, 127);
+    else if (k == 4) vo_index(2, 1, 128); else vo_index(0, 0, 255); }
+#endif
+#ifdef VO_LENGTH
+static void vo_length(uint32_t a, uint32_t e) {
+    vo_setup(VO_WE(JOP_LENGTH, a, e), a, e, 0);
+    JanetSignal sig = vo_run();
+    vo_continues_at(sig, 1);
+    vo_acc_common(ACC_LENGTH);
+    __CPROVER_assert(same(g_acc_ds, vo_old[e]), "vm.op: length receives the operand, unchanged");
+    __CPROVER_assert(same(vo_mem.slots[a], g_res), "vm.op: the value the function returns arrives unchanged in the destination slot");
+    vo_others_kept(a);
+    REACH("vm.op length");
+}
+void h_vo_length(void) { int k = nd_int(); if (k == 0) vo_length(0, 1); else if (k == 1) vo_length(1, 1); else vo_length(3, 0); }
+#endif
+
+/* =====================================================================================================
+ * Group 5: moves, loads, jumps, type check, error, return.
+ * ===================================================================================================== */
+#ifdef VO_MOVE
+/* MOVE_NEAR: A <- E;  MOVE_FAR: E <- A */
+static void vo_move(uint32_t near, uint32_t a, uint32_t e) {
+    if (near) vo_setup(VO_WE(JOP_MOVE_NEAR, a, e), a, e, 0); else vo_setup(VO_WE(JOP_MOVE_FAR, a, e), a, e, 0);
+    JanetSignal sig = vo_run();
+    vo_continues_at(sig, 1);
+    uint32_t dst = near ? a : e, src = near ? e : a;
+    __CPROVER_assert(same(vo_mem.slots[dst], vo_old[src]), "vm.op: the destination slot holds the source slot's value, unchanged");
+    vo_others_kept(dst);
+    REACH("vm.op move");
+}
+void h_vo_move(void) { int k = nd_int();
+    if (k == 0) vo_move(1, 0, 1); else if (k == 1) vo_move(1, 1, 1); else if (k == 2) vo_move(1, 3, 0); else if (k == 3) vo_move(1, 0, 3);
+    else if (k == 4) vo_move(0, 0, 1); else if (k == 5) vo_move(0, 1, 1); else if (k == 6) vo_move(0, 3, 0); else vo_move(0, 0, 3); }
+#endif
+
+#ifdef VO_LOADK
+/* LOAD_NIL / LOAD_TRUE / LOAD_FALSE / LOAD_SELF: D = destination */
+static void vo_loadk(uint32_t op, uint32_t d) {
+    vo_setup(VO_WD(op, d), d, 0, 0);
+    JanetSignal sig = vo_run();
+    vo_continues_at(sig, 1);
+    Janet want;
+    if (op == JOP_LOAD_NIL) want = vo_nil(); else if (op == JOP_LOAD_TRUE) want = vo_bool(1); else if (op == JOP_LOAD_FALSE) want = vo_bool(0);
+    else { want.type = JANET_FUNCTION; want.as.u64 = 0; want.as.pointer = vo_func; }
+    __CPROVER_assert(same(vo_mem.slots[d], want), "vm.op: the destination slot holds exactly the documented constant (nil / true / false / the running function)");
+    vo_others_kept(d);
+    REACH("vm.op load constant value");
+}
+void h_vo_loadk(void) { int k = nd_int();
+    if (k == 0) vo_loadk(JOP_LOAD_NIL, 0); else if (k == 1) vo_loadk(JOP_LOAD_NIL, 3); else if (k == 2) vo_loadk(JOP_LOAD_TRUE, 0); else if (k == 3) vo_loadk(JOP_LOAD_TRUE, 2);
+    else if (k == 4) vo_loadk(JOP_LOAD_FALSE, 1); else if (k == 5) vo_loadk(JOP_LOAD_FALSE, 3); else if (k == 6) vo_loadk(JOP_LOAD_SELF, 0); else vo_loadk(JOP_LOAD_SELF, 3); }
+#endif
+
+#ifdef VO_LOADI
+/* LOAD_INTEGER: A = destination, E = signed 16-bit integer */
+static void vo_loadi(uint32_t a, int v) {
+    vo_setup(VO_WE(JOP_LOAD_INTEGER, a, (uint16_t) v), a, 0, 0);
+    JanetSignal sig = vo_run();
+    vo_continues_at(sig, 1);
+    __CPROVER_assert(is_num(vo_mem.slots[a], (double) v), "vm.op: the destination slot holds the signed 16-bit immediate as a number");
+    vo_others_kept(a);
+    REACH("vm.op load integer");
+}
+void h_vo_loadi(void) { int k = nd_int();
+    if (k == 0) vo_loadi(0, 0); else if (k == 1) vo_loadi(1, 1); else if (k == 2) vo_loadi(2, -1); else if (k == 3) vo_loadi(3, 32767); else if (k == 4) vo_loadi(0, -32768);
+    else if (k == 5) vo_loadi(0, 255); else if (k == 6) vo_loadi(0, 256); else vo_loadi(1, -256); }
+#endif
+
+#ifdef VO_LOADC
+/* LOAD_CONSTANT: A = destination, E = index into the function's constants */
+#define VO_NCONST 3
+static Janet vo_consts[VO_NCONST], vo_consts_old[VO_NCONST];
+static void vo_loadc(uint32_t a, uint32_t e) {
+    vo_setup(VO_WE(JOP_LOAD_CONSTANT, a, e), a, 0, 0);
+    for (int i = 0; i < VO_NCONST; i++) { vo_consts[i] = vo_any(); vo_consts_old[i] = vo_consts[i]; }
+    vo_def.constants = vo_consts;
+    vo_def.constants_length = VO_NCONST;
+    JanetSignal sig = vo_run();
+    vo_continues_at(sig, 1);
+    __CPROVER_assert(e < VO_NCONST, "vm.op: a constant index outside the function's constants raises");
+    if (e < VO_NCONST) __CPROVER_assert(same(vo_mem.slots[a], vo_consts_old[e]), "vm.op: the destination slot holds the indexed constant, unchanged");
+    for (int i = 0; i < VO_NCONST; i++) __CPROVER_assert(same(vo_consts[i], vo_consts_old[i]), "vm.op: the constants are not written");
+    vo_others_kept(a);
+    REACH("vm.op load constant");
+}
+void h_vo_loadc(void) { int k = nd_int();
+    if (k == 0) vo_loadc(0, 0); else if (k == 1) vo_loadc(1, 1); else if (k == 2) vo_loadc(3, 2); else if (k == 3) vo_loadc(0, 3); else if (k == 4) vo_loadc(0, 0x7FFF); else vo_loadc(2, 0xFFFF); }
+#endif
+
+#ifdef VO_UPVALUE
+/* LOAD_UPVALUE: A <- upvalue (environment B, index C);  SET_UPVALUE: upvalue (B, C) <- A.
+ * Three environments: 0 = closed (values live in the environment), 1 = on the stack of another fiber,
+ * 2 = on this fiber's stack, namely the running frame itself. */
+#define VO_NENV 3
+#define VO_ENVLEN 3
+#define VO_EOFF 2
+static JanetFuncEnv vo_env[VO_NENV];
+static Janet vo_envvals[VO_ENVLEN], vo_envvals_old[VO_ENVLEN];
+static Janet vo_edata[VO_EOFF + VO_ENVLEN + 1], vo_edata_old[VO_EOFF + VO_ENVLEN + 1];
+static JanetFiber vo_efiber;
+static void vo_setup_envs(void) {
+    JanetFunction *f = malloc(sizeof(JanetFunction) + VO_NENV * sizeof(JanetFuncEnv *));
+    __CPROVER_assume(f != (JanetFunction *)0);
+    f->def = &vo_def;
+    f->gc.flags = JANET_MEMORY_FUNCTION;
+    vo_def.environments_length = VO_NENV;
+    for (int i = 0; i < VO_ENVLEN; i++) { vo_envvals[i] = vo_any(); vo_envvals_old[i] = vo_envvals[i]; }
+    for (int i = 0; i < VO_EOFF + VO_ENVLEN + 1; i++) { vo_edata[i] = vo_any(); vo_edata_old[i] = vo_edata[i]; }
+    vo_env[0].offset = 0; vo_env[0].length = VO_ENVLEN; vo_env[0].as.values = vo_envvals;
+    vo_efiber.data = vo_edata; vo_efiber.capacity = VO_EOFF + VO_ENVLEN + 1; vo_efiber.frame = VO_EOFF;
+    vo_env[1].offset = VO_EOFF; vo_env[1].length = VO_ENVLEN; vo_env[1].as.fiber = &vo_efiber;
+    vo_env[2].offset = JANET_FRAME_SIZE; vo_env[2].length = VO_SLOTS; vo_env[2].as.fiber = &vo_fiber;
+    for (int i = 0; i < VO_NENV; i++) f->envs[i] = &vo_env[i];
+    vo_func = f;
+    vo_mem.fr.func = f;
+}
+static void vo_envs_kept(int env_except, uint32_t idx_except) {
+    for (uint32_t i = 0; i < VO_ENVLEN; i++) if (!(env_except == 0 && i == idx_except)) __CPROVER_assert(same(vo_envvals[i], vo_envvals_old[i]), "vm.op: every other closed upvalue keeps its value");
+    for (uint32_t i = 0; i < VO_EOFF + VO_ENVLEN + 1; i++) if (!(env_except == 1 && i == VO_EOFF + idx_except)) __CPROVER_assert(same(vo_edata[i], vo_edata_old[i]), "vm.op: every other cell of the other fiber's stack keeps its value");
+    __CPROVER_assert(vo_env[0].offset == 0 && vo_env[1].offset == VO_EOFF && vo_env[2].offset == JANET_FRAME_SIZE && vo_env[0].length == VO_ENVLEN && vo_env[1].length == VO_ENVLEN && vo_env[2].length == VO_SLOTS, "vm.op: the environments themselves are not changed");
+}
+static void vo_upvalue(uint32_t set, uint32_t a, uint32_t b, uint32_t c) {
+    vo_setup(VO_W(set ? JOP_SET_UPVALUE : JOP_LOAD_UPVALUE, a, b, c), a, b, c);
+    vo_setup_envs();
+    JanetSignal sig = vo_run();
+    vo_continues_at(sig, 1);
+    __CPROVER_assert(b < VO_NENV, "vm.op: an environment index outside the function's environments raises");
+    uint32_t len = b == 2 ? VO_SLOTS : VO_ENVLEN;
+    __CPROVER_assert(b >= VO_NENV || c < len, "vm.op: an upvalue index outside the environment raises");
+    if (b < VO_NENV && c < len) {
+        if (!set) {
+            Janet want = b == 0 ? vo_envvals_old[c] : b == 1 ? vo_edata_old[VO_EOFF + c] : vo_old[c];
+            __CPROVER_assert(same(vo_mem.slots[a], want), "vm.op: the destination slot holds the upvalue's current value (closed: from the environment; open: from the owning fiber's stack)");
+            vo_others_kept(a);
+            vo_envs_kept(-1, 0);
+        } else {
+            Janet *cell = b == 0 ? &vo_envvals[c] : b == 1 ? &vo_edata[VO_EOFF + c] : &vo_mem.slots[c];
+            __CPROVER_assert(same(*cell, vo_old[a]), "vm.op: the upvalue (closed: in the environment; open: on the owning fiber's stack) holds the source slot's value");
+            vo_others_kept(b == 2 ? c : VO_NDATA);
+            vo_envs_kept((int) b, c);
+        }
+    }
+    REACH("vm.op upvalue");
+}
+void h_vo_upvalue_load(void) { int k = nd_int();
+    if (k == 0) vo_upvalue(0, 0, 0, 0); else if (k == 1) vo_upvalue(0, 1, 0, 2); else if (k == 2) vo_upvalue(0, 0, 1, 0); else if (k == 3) vo_upvalue(0, 2, 1, 2);
+    else if (k == 4) vo_upvalue(0, 0, 2, 0); else if (k == 5) vo_upvalue(0, 1, 2, 3); else if (k == 6) vo_upvalue(0, 3, 2, 1);
+    else if (k == 7) vo_upvalue(0, 0, 3, 0); else if (k == 8) vo_upvalue(0, 0, 0, 3); else if (k == 9) vo_upvalue(0, 0, 1, 3); else if (k == 10) vo_upvalue(0, 0, 2, 4); else vo_upvalue(0, 0, 255, 0); }
+void h_vo_upvalue_set(void) { int k = nd_int();
+    if (k == 0) vo_upvalue(1, 0, 0, 0); else if (k == 1) vo_upvalue(1, 1, 0, 2); else if (k == 2) vo_upvalue(1, 0, 1, 0); else if (k == 3) vo_upvalue(1, 2, 1, 2);
+    else if (k == 4) vo_upvalue(1, 0, 2, 0); else if (k == 5) vo_upvalue(1, 1, 2, 3); else if (k == 6) vo_upvalue(1, 3, 2, 1);
+    else if (k == 7) vo_upvalue(1, 0, 3, 0); else if (k == 8) vo_upvalue(1, 0, 0, 3); else if (k == 9) vo_upvalue(1, 0, 1, 3); else if (k == 10) vo_upvalue(1, 0, 2, 4); else vo_upvalue(1, 0, 255, 0); }
+#endif
+
+#ifdef VO_JUMPS
+/* only nil and false are falsey */
+static int vo_truthy(Janet x) { return !(x.type == JANET_NIL || (x.type == JANET_BOOLEAN && x.as.u64 == 0)); }
+/* a taken jump by `off` words: a backward (or zero) jump is where a requested interrupt is honoured - the fiber is
+ * suspended before jumping and will re-execute the jump when resumed */
+static void vo_jump_taken(JanetSignal sig, int off) {
+    if (off <= 0 && janet_vm.auto_suspend) {
+        __CPROVER_assert(sig == JANET_SIGNAL_INTERRUPT, "vm.op: a backward jump honours a requested interrupt");
+        __CPROVER_assert(vo_mem.fr.pc == vo_code + VO_PC0, "vm.op: the interrupted fiber will re-execute the jump");
+        __CPROVER_assert((vo_fiber.flags & JANET_FIBER_RESUME_NO_USEVAL) && (vo_fiber.flags & JANET_FIBER_RESUME_NO_SKIP), "vm.op: the interrupted fiber resumes at the same instruction without storing a value");
+        vo_frame_intact();
+        REACH("vm.op jump: interrupted");
+    } else {
+        vo_continues_at(sig, off);
+        REACH("vm.op jump: taken");
+    }
+}
+static void vo_jump(int off) {
+    vo_setup(VO_WD(JOP_JUMP, off), 0, 0, 0);
+    JanetSignal sig = vo_run();
+    vo_jump_taken(sig, off);
+    vo_others_kept(VO_NDATA);
+}
+void h_vo_jump(void) { int k = nd_int();
+    if (k == 0) vo_jump(1); else if (k == 1) vo_jump(2); else if (k == 2) vo_jump(4); else if (k == 3) vo_jump(-1); else if (k == 4) vo_jump(-3); else vo_jump(-2); }
+static void vo_jump_cond(uint32_t op, uint32_t a, int off) {
+    vo_setup(VO_WE(op, a, (uint16_t) off), a, 0, 0);
+    JanetSignal sig = vo_run();
+    Janet x = vo_old[a];
+    int taken = op == JOP_JUMP_IF ? vo_truthy(x) : op == JOP_JUMP_IF_NOT ? !vo_truthy(x) : op == JOP_JUMP_IF_NIL ? x.type == JANET_NIL : x.type != JANET_NIL;
+    if (taken) vo_jump_taken(sig, off);
+    else { vo_continues_at(sig, 1); REACH("vm.op jump: not taken"); }
+    vo_others_kept(VO_NDATA);
+}
+#ifndef VO_JOP
+#define VO_JOP JOP_JUMP_IF
+#endif
+void h_vo_jump_cond(void) { int k = nd_int();
+    if (k == 0) vo_jump_cond(VO_JOP, 0, 2); else if (k == 1) vo_jump_cond(VO_JOP, 3, 4); else if (k == 2) vo_jump_cond(VO_JOP, 1, -2); else if (k == 3) vo_jump_cond(VO_JOP, 0, -3);
+    else vo_jump_cond(VO_JOP, 2, 3); }
+#endif
+
+#ifdef VO_TYPECHECK
+static void vo_typecheck(uint32_t a, uint32_t mask) {
+    vo_setup(VO_WE(JOP_TYPECHECK, a, mask), a, 0, 0);
+    JanetSignal sig = vo_run();
+    vo_continues_at(sig, 1);
+    __CPROVER_assert((1u << vo_old[a].type) & mask, "vm.op: a value whose type is not in the mask raises");
+    vo_others_kept(VO_NDATA);
+    REACH("vm.op typecheck passed");
+}
+void h_vo_typecheck(void) { int k = nd_int();
+    if (k == 0) vo_typecheck(0, 0x0001); else if (k == 1) vo_typecheck(1, 0xFFFF); else if (k == 2) vo_typecheck(0, 0); else if (k == 3) vo_typecheck(3, JANET_TFLAG_INDEXED);
+    else if (k == 4) vo_typecheck(2, JANET_TFLAG_BYTES); else if (k == 5) vo_typecheck(0, JANET_TFLAG_CALLABLE); else if (k == 6) vo_typecheck(0, 0x8000); else vo_typecheck(1, JANET_TFLAG_DICTIONARY | JANET_TFLAG_NIL); }
+#endif
+
+#ifdef VO_ERROR
+static void vo_error(uint32_t a) {
+    vo_setup(VO_W(JOP_ERROR, a, 0, 0), a, 0, 0);
+    JanetSignal sig = vo_run();
+    __CPROVER_assert(sig == JANET_SIGNAL_ERROR, "vm.op: error leaves the fiber with the error signal");
+    __CPROVER_assert(same(janet_vm.return_reg[0], vo_old[a]), "vm.op: the error value is the operand, unchanged");
+    __CPROVER_assert(vo_committed(), "vm.op: the frame is committed at the raising instruction");
+    vo_frame_intact();
+    vo_others_kept(VO_NDATA);
+    REACH("vm.op error");
+}
+void h_vo_error(void) { int k = nd_int(); if (k == 0) vo_error(0); else if (k == 1) vo_error(1); else vo_error(3); }
+#endif
+
+#ifdef VO_RETURN
+/* RETURN D / RETURN_NIL from the frame the interpreter was entered with: the fiber finishes with the value */
+static void vo_return(uint32_t nil, uint32_t d) {
+    vo_setup(nil ? VO_WD(JOP_RETURN_NIL, 0) : VO_WD(JOP_RETURN, d), d, 0, 0);
+    JanetSignal sig = vo_run();
+    __CPROVER_assert(sig == JANET_SIGNAL_OK, "vm.op: returning from the entrance frame ends the run normally");
+    __CPROVER_assert(same(janet_vm.return_reg[0], nil ? vo_nil() : vo_old[d]), "vm.op: the value returned is the operand (or nil), unchanged");
+    __CPROVER_assert(vo_fiber.frame == 0 && vo_fiber.stackstart == JANET_FRAME_SIZE && vo_fiber.stacktop == JANET_FRAME_SIZE, "vm.op: the frame is popped");
+    __CPROVER_assert(vo_fiber.child == (JanetFiber *)0 && vo_fiber.data == vo_data, "vm.op: nothing else about the fiber changes");
+    vo_others_kept(VO_NDATA);
+    REACH("vm.op return");
+}
+void h_vo_return(void) { int k = nd_int(); if (k == 0) vo_return(0, 0); else if (k == 1) vo_return(0, 3); else if (k == 2) vo_return(0, 2); else vo_return(1, 0); }
 #endif
